@@ -22,6 +22,7 @@ import (
 	"github.com/containers/nri-plugins/pkg/pidfile"
 	"github.com/containers/nri-plugins/pkg/resmgr"
 	"github.com/containers/nri-plugins/pkg/resmgr/cache"
+	"github.com/containers/nri-plugins/pkg/resmgr/events"
 	policyapi "github.com/containers/nri-plugins/pkg/resmgr/policy"
 
 	"verifh/sim"
@@ -533,6 +534,35 @@ func (w *world) doOp(op *Op) *reply {
 		}
 	case "sync":
 		rep.err, rep.crashed = w.synchronize(rep)
+	case "coldstart-done":
+		// the cold-start timer of a started container has expired
+		c, ok := w.rt.ctrs[op.ID]
+		if !ok || c.state != "running" || w.plan.Policy != "topology-aware" {
+			rep.skipped = true
+			return rep
+		}
+		// only a container that is in its cold-start period has a timer
+		inColdStart := false
+		if sn := topologyaware.VerifSnapshot(w.backend()); sn != nil {
+			for _, g := range sn.Grants {
+				if g.Container == op.ID && g.ColdStart > 0 {
+					inColdStart = true
+				}
+			}
+		}
+		if !inColdStart {
+			rep.skipped = true
+			return rep
+		}
+		w.res.Probe("cold-start-timer-expired")
+		rep.target = op.ID
+		rep.err, rep.crashed = w.call("cold-start-done", func() error {
+			changed, err := resmgr.VerifDeliverPolicyEvent(w.rm, &events.Policy{Type: "cold-start-done", Source: "topology-aware", Data: op.ID})
+			if changed {
+				w.res.Probe("cold-start-completed-with-changes")
+			}
+			return err
+		})
 	case "restart":
 		// clean restart: the old incarnation is discarded, a new one starts on
 		// the same state directory, then the runtime synchronizes
@@ -691,9 +721,13 @@ func (w *world) synchronize(rep *reply) (error, bool) {
 
 const markRevertFailed = "failed to revert configuration"
 
+// balloons: Sync (restart, Synchronize, Reconfigure) only logs a container it
+// could not re-admit
+const markReadmitFailed = "allocating resources for Sync produced an error"
+
 func setupProcess() {
 	klog.OsExit = func(code int) { panic(exitPanic{code}) }
-	sim.LogMarkers(markRevertFailed)
+	sim.LogMarkers(markRevertFailed, markReadmitFailed)
 }
 
 func (w *world) setMemCapacity() {
